@@ -1746,15 +1746,17 @@ func (s *BgpServer) handleFSMMessage(peer *peer, e *fsmMsg) {
 			}
 
 			// Always clear EndOfRibReceived state on PeerDown
+			// (a fresh copy in a variable of its own: the address of 'conf'
+			// above may have been published already and is read without a lock)
 			peer.fsm.lock.Lock()
-			conf = peer.fsm.pConf.ReadCopy()
-			for i, af := range conf.AfiSafis {
+			downConf := peer.fsm.pConf.ReadCopy()
+			for i, af := range downConf.AfiSafis {
 				if slices.Contains(gracefulFamilies, af.State.Family) {
-					conf.AfiSafis[i].MpGracefulRestart.State.Running = true
+					downConf.AfiSafis[i].MpGracefulRestart.State.Running = true
 				}
-				conf.AfiSafis[i].MpGracefulRestart.State.EndOfRibReceived = false
+				downConf.AfiSafis[i].MpGracefulRestart.State.EndOfRibReceived = false
 			}
-			peer.fsm.pConf.Update(&conf)
+			peer.fsm.pConf.Update(&downConf)
 			peer.prefixLimitWarned = make(map[bgp.Family]bool)
 			peer.fsm.lock.Unlock()
 
@@ -1764,11 +1766,11 @@ func (s *BgpServer) handleFSMMessage(peer *peer, e *fsmMsg) {
 			s.resetAdvertisedRoutes(peer)
 			s.dropAdjRIBIn(peer, dropFamilies)
 
-			if conf.Config.PeerAs == 0 {
+			if downConf.Config.PeerAs == 0 {
 				peer.fsm.lock.Lock()
-				conf = peer.fsm.pConf.ReadCopy()
-				conf.State.PeerAs = 0
-				peer.fsm.pConf.Update(&conf)
+				asConf := peer.fsm.pConf.ReadCopy()
+				asConf.State.PeerAs = 0
+				peer.fsm.pConf.Update(&asConf)
 				peer.fsm.lock.Unlock()
 			}
 
